@@ -8,7 +8,8 @@ import (
 )
 
 var (
-	changeLogRegex = `^(\w*)(?:\((.*)\))?: (.*)$`
+	// type, optional (scope), optional ! of a breaking change, colon, blank, description
+	changeLogRegex = `^(\w*)(?:\((.*)\))?!?: (.*)$`
 )
 
 // high fix
